@@ -199,6 +199,11 @@ func cmdCheck(args []string) {
 		funcsEv = append(funcsEv, funcEvidence(e, fn, con, g, n))
 	}
 
+	// ownership declarations of the loaded packages (static scan, no solver)
+	ownsChecked, ownsBad := e.OwnershipViolations()
+	for _, b := range ownsBad {
+		fails = append(fails, &failure{Name: "owns#" + sanitize(b), Reason: b})
+	}
 	// discharge: lemma blocks and function obligations
 	solveLemmas(lemmaGen, recPre, filepath.Join(outDir, "lemmas"), timeout)
 	// only solve selected obligations (plus covers)
@@ -225,7 +230,7 @@ func cmdCheck(args []string) {
 	}
 
 	known := loadKnownFindings(filepath.Join(verifDir, "known_findings.json"))
-	total, discharged := 0, 0
+	total, discharged := len(ownsChecked)+len(ownsBad), len(ownsChecked)
 	var perObl []map[string]any
 	solverTime := 0.0
 	bySolver := map[string]int{}
@@ -361,6 +366,7 @@ func cmdCheck(args []string) {
 		"explanation":  ps.Explanation,
 		"residual_not_decided": ps.Residual,
 		"contract_files": e.contractFiles,
+		"ownership_scans": ownsChecked,
 	}
 	ev := map[string]any{
 		"property_id": prop, "tier": tier, "seed": seed, "level": level,
